@@ -689,4 +689,61 @@ func buildTable(c *vlib.Check) {
 		v2 = append(v2, build{desc: fmt.Sprintf("vote%d", i), mk: func() (msg, error) { return ok(leiosvotes.NewMsgVote(v)) }})
 	}
 	add("leiosvotes", "NewMsgVote", "MsgVote", lvd, []kind{kList}, v2...)
+
+	// ================= nil (as opposed to empty) slice / map arguments =================
+	// A nil argument is a different Go value from an empty one and some constructors/encoders
+	// branch on it; these instances carry the key class "nil-arg".
+	p0 := points[1].p // (0,h): non-origin
+	nilArg := func(proto, name string, desc string, mk func() (msg, error)) {
+		for _, ct := range ctors {
+			if ct.proto == proto && ct.name == name {
+				ct.builds = append(ct.builds, build{desc: desc, mk: mk, kclass: "nil-arg"})
+				return
+			}
+		}
+		panic("nilArg: unknown constructor " + proto + "." + name)
+	}
+	nilArg("chainsync", "NewMsgFindIntersect", "nil points", func() (msg, error) { return ok(chainsync.NewMsgFindIntersect(nil)) })
+	nilArg("handshake", "NewMsgProposeVersions", "nil map", func() (msg, error) { return ok(handshake.NewMsgProposeVersions(nil)) })
+	nilArg("handshake", "NewMsgQueryReply", "nil map", func() (msg, error) { return ok(handshake.NewMsgQueryReply(nil)) })
+	nilArg("handshake", "NewMsgRefuse", "nil reason", func() (msg, error) { return ok(handshake.NewMsgRefuse(nil)) })
+	nilArg("blockfetch", "NewMsgBlock", "nil bytes", func() (msg, error) { return ok(blockfetch.NewMsgBlock(nil)) })
+	nilArg("txsubmission", "NewMsgReplyTxIds", "nil", func() (msg, error) { return ok(txsubmission.NewMsgReplyTxIds(nil)) })
+	nilArg("txsubmission", "NewMsgRequestTxs", "nil", func() (msg, error) { return ok(txsubmission.NewMsgRequestTxs(nil)) })
+	nilArg("txsubmission", "NewMsgReplyTxs", "nil", func() (msg, error) { return ok(txsubmission.NewMsgReplyTxs(nil)) })
+	nilArg("peersharing", "NewMsgSharePeers", "nil", func() (msg, error) { return ok(peersharing.NewMsgSharePeers(nil)) })
+	nilArg("localtxmonitor", "NewMsgHasTx", "nil", func() (msg, error) { return ok(ltm.NewMsgHasTx(nil)) })
+	nilArg("localtxsubmission", "NewMsgSubmitTx", "era=1,nil tx", func() (msg, error) { return ok(lts.NewMsgSubmitTx(1, nil)) })
+	nilArg("localmessagenotification", "NewMsgReplyMessagesNonBlocking", "nil,true", func() (msg, error) { return ok(lmn.NewMsgReplyMessagesNonBlocking(nil, true)) })
+	nilArg("localmessagenotification", "NewMsgReplyMessagesBlocking", "nil", func() (msg, error) { return ok(lmn.NewMsgReplyMessagesBlocking(nil)) })
+	nilArg("messagesubmission", "NewMsgReplyMessageIds", "nil", func() (msg, error) { return ok(messagesubmission.NewMsgReplyMessageIds(nil)) })
+	nilArg("messagesubmission", "NewMsgRequestMessages", "nil", func() (msg, error) { return ok(messagesubmission.NewMsgRequestMessages(nil)) })
+	nilArg("messagesubmission", "NewMsgReplyMessages", "nil", func() (msg, error) { return ok(messagesubmission.NewMsgReplyMessages(nil)) })
+	nilArg("leiosfetch", "NewMsgBlockTxsRequest", "(0,h),nil bitmaps", func() (msg, error) { return ok(leiosfetch.NewMsgBlockTxsRequest(p0, nil)) })
+	nilArg("leiosfetch", "NewMsgBlockTxs", "nil", func() (msg, error) { return ok(leiosfetch.NewMsgBlockTxs(nil)) })
+	nilArg("leiosfetch", "NewMsgBlockTxsFull", "origin,nil bitmaps,one", func() (msg, error) {
+		return ok(leiosfetch.NewMsgBlockTxsFull(pcommon.NewPointOrigin(), nil, rawLists[1].l))
+	})
+	nilArg("leiosfetch", "NewMsgBlockTxsFull", "(0,h),nil bitmaps,one", func() (msg, error) { return ok(leiosfetch.NewMsgBlockTxsFull(p0, nil, rawLists[1].l)) })
+	nilArg("leiosfetch", "NewMsgBlockTxsFull", "(0,h),one,nil txs", func() (msg, error) { return ok(leiosfetch.NewMsgBlockTxsFull(p0, bitmaps[1].m, nil)) })
+	nilArg("leiosfetch", "NewMsgVotesRequest", "nil", func() (msg, error) { return ok(leiosfetch.NewMsgVotesRequest(nil)) })
+	nilArg("leiosfetch", "NewMsgVotes", "nil", func() (msg, error) { return ok(leiosfetch.NewMsgVotes(nil)) })
+	nilArg("leiosfetch", "NewMsgVotesFromVotes", "nil", func() (msg, error) {
+		m, err := leiosfetch.NewMsgVotesFromVotes(nil)
+		if err != nil {
+			return nil, err
+		}
+		return m, nil
+	})
+	nilArg("leiosfetch", "NewMsgNextBlockAndTxsInRange", "uint,nil txs", func() (msg, error) { return ok(leiosfetch.NewMsgNextBlockAndTxsInRange(payloads[0].b, nil)) })
+	nilArg("leiosfetch", "NewMsgLastBlockAndTxsInRange", "uint,nil txs", func() (msg, error) { return ok(leiosfetch.NewMsgLastBlockAndTxsInRange(payloads[0].b, nil)) })
+	nilArg("leiosnotify", "NewMsgVotesOffer", "nil", func() (msg, error) { return ok(leiosnotify.NewMsgVotesOffer(nil)) })
+	nilArg("leiosnotify", "NewMsgVotesOfferFull", "nil", func() (msg, error) { return ok(leiosnotify.NewMsgVotesOfferFull(nil)) })
+	nilArg("leiosnotify", "NewMsgVotesOfferPrototype", "nil", func() (msg, error) { return ok(leiosnotify.NewMsgVotesOfferPrototype(nil)) })
+	// empty but non-nil transaction in the local-tx-monitor reply (the encoder branches on Tx != nil)
+	for _, ct := range ctors {
+		if ct.proto == "localtxmonitor" && ct.name == "NewMsgReplyNextTx" {
+			ct.builds = append(ct.builds, build{desc: "era=1,empty non-nil tx", mk: func() (msg, error) { return ok(ltm.NewMsgReplyNextTx(1, []byte{})) }})
+		}
+	}
 }
